@@ -148,6 +148,11 @@ class Instance(object):
         from asl_workflow_engine.event_dispatcher import EventDispatcher
         import pika
         before = set(id(c) for c in pika.broker.get().connections)
+        if str(self.config.get("state_engine", {}).get("store_url", "")).startswith("redis"):
+            # RedisStore caches one connection per *process*; an engine instance is a process of its own
+            from asl_workflow_engine import store as store_mod
+            if hasattr(store_mod.RedisStore, "connection"):
+                del store_mod.RedisStore.connection
         self.engine = StateEngine(self.config)
         if self.sim.shared_stores is not None:
             # instances share the stores (as they would through Redis / a shared file)
